@@ -79,6 +79,10 @@ func (m *Module) addDataDefinitionWithoutOwning(d Definition) error {
 }
 
 func (m *Module) indexDataDefinition(def Definition) error {
+	if _, isUses := def.(*Uses); isUses {
+		// a uses goes by the name of its grouping, which is not the name of a node
+		return nil
+	}
 	if m.dataDefsIndex == nil {
 		m.dataDefsIndex = make(map[string]Definition)
 	} else if _, exists := m.dataDefsIndex[def.Ident()]; exists {
@@ -552,6 +556,10 @@ func (m *ChoiceCase) addDataDefinitionWithoutOwning(d Definition) error {
 }
 
 func (m *ChoiceCase) indexDataDefinition(def Definition) error {
+	if _, isUses := def.(*Uses); isUses {
+		// a uses goes by the name of its grouping, which is not the name of a node
+		return nil
+	}
 	if m.dataDefsIndex == nil {
 		m.dataDefsIndex = make(map[string]Definition)
 	} else if _, exists := m.dataDefsIndex[def.Ident()]; exists {
@@ -764,6 +772,10 @@ func (m *Container) addDataDefinitionWithoutOwning(d Definition) error {
 }
 
 func (m *Container) indexDataDefinition(def Definition) error {
+	if _, isUses := def.(*Uses); isUses {
+		// a uses goes by the name of its grouping, which is not the name of a node
+		return nil
+	}
 	if m.dataDefsIndex == nil {
 		m.dataDefsIndex = make(map[string]Definition)
 	} else if _, exists := m.dataDefsIndex[def.Ident()]; exists {
@@ -1068,6 +1080,10 @@ func (m *List) addDataDefinitionWithoutOwning(d Definition) error {
 }
 
 func (m *List) indexDataDefinition(def Definition) error {
+	if _, isUses := def.(*Uses); isUses {
+		// a uses goes by the name of its grouping, which is not the name of a node
+		return nil
+	}
 	if m.dataDefsIndex == nil {
 		m.dataDefsIndex = make(map[string]Definition)
 	} else if _, exists := m.dataDefsIndex[def.Ident()]; exists {
@@ -1948,6 +1964,10 @@ func (m *Grouping) addDataDefinitionWithoutOwning(d Definition) error {
 }
 
 func (m *Grouping) indexDataDefinition(def Definition) error {
+	if _, isUses := def.(*Uses); isUses {
+		// a uses goes by the name of its grouping, which is not the name of a node
+		return nil
+	}
 	if m.dataDefsIndex == nil {
 		m.dataDefsIndex = make(map[string]Definition)
 	} else if _, exists := m.dataDefsIndex[def.Ident()]; exists {
@@ -2426,6 +2446,10 @@ func (m *RpcInput) addDataDefinitionWithoutOwning(d Definition) error {
 }
 
 func (m *RpcInput) indexDataDefinition(def Definition) error {
+	if _, isUses := def.(*Uses); isUses {
+		// a uses goes by the name of its grouping, which is not the name of a node
+		return nil
+	}
 	if m.dataDefsIndex == nil {
 		m.dataDefsIndex = make(map[string]Definition)
 	} else if _, exists := m.dataDefsIndex[def.Ident()]; exists {
@@ -2612,6 +2636,10 @@ func (m *RpcOutput) addDataDefinitionWithoutOwning(d Definition) error {
 }
 
 func (m *RpcOutput) indexDataDefinition(def Definition) error {
+	if _, isUses := def.(*Uses); isUses {
+		// a uses goes by the name of its grouping, which is not the name of a node
+		return nil
+	}
 	if m.dataDefsIndex == nil {
 		m.dataDefsIndex = make(map[string]Definition)
 	} else if _, exists := m.dataDefsIndex[def.Ident()]; exists {
@@ -2918,6 +2946,10 @@ func (m *Notification) addDataDefinitionWithoutOwning(d Definition) error {
 }
 
 func (m *Notification) indexDataDefinition(def Definition) error {
+	if _, isUses := def.(*Uses); isUses {
+		// a uses goes by the name of its grouping, which is not the name of a node
+		return nil
+	}
 	if m.dataDefsIndex == nil {
 		m.dataDefsIndex = make(map[string]Definition)
 	} else if _, exists := m.dataDefsIndex[def.Ident()]; exists {
@@ -3190,6 +3222,10 @@ func (m *Augment) addDataDefinitionWithoutOwning(d Definition) error {
 }
 
 func (m *Augment) indexDataDefinition(def Definition) error {
+	if _, isUses := def.(*Uses); isUses {
+		// a uses goes by the name of its grouping, which is not the name of a node
+		return nil
+	}
 	if m.dataDefsIndex == nil {
 		m.dataDefsIndex = make(map[string]Definition)
 	} else if _, exists := m.dataDefsIndex[def.Ident()]; exists {
@@ -4189,6 +4225,10 @@ func (m *Extension) addDataDefinitionWithoutOwning(d Definition) error {
 }
 
 func (m *Extension) indexDataDefinition(def Definition) error {
+	if _, isUses := def.(*Uses); isUses {
+		// a uses goes by the name of its grouping, which is not the name of a node
+		return nil
+	}
 	if m.dataDefsIndex == nil {
 		m.dataDefsIndex = make(map[string]Definition)
 	} else if _, exists := m.dataDefsIndex[def.Ident()]; exists {
